@@ -107,3 +107,48 @@ func ForStrings(alpha string, maxLen, workers int, f func(s []byte)) int64 {
 	}
 	return total
 }
+
+// LongSeqs returns a fixed family of longer sequences over 0..vals-1 with
+// structure that short exhaustive enumeration cannot contain: periodic,
+// blocks, ramps, near-copies, and fixed pseudo-random ones (a linear
+// congruential generator with constant seeds - the family is the same on
+// every run).
+func LongSeqs(vals int, lengths []int) [][]int {
+	var out [][]int
+	lcg := func(seed uint64) func() int {
+		x := seed
+		return func() int {
+			x = x*6364136223846793005 + 1442695040888963407
+			return int((x >> 33) % uint64(vals))
+		}
+	}
+	for _, n := range lengths {
+		mk := func(f func(i int) int) {
+			s := make([]int, n)
+			for i := range s {
+				s[i] = f(i) % vals
+				if s[i] < 0 {
+					s[i] += vals
+				}
+			}
+			out = append(out, s)
+		}
+		mk(func(i int) int { return 0 })
+		mk(func(i int) int { return i })
+		mk(func(i int) int { return n - i })
+		mk(func(i int) int { return i / 3 })
+		mk(func(i int) int { return (i / 7) * 5 })
+		mk(func(i int) int { return i * i })
+		mk(func(i int) int {
+			if i == n/2 {
+				return 1
+			}
+			return 0
+		})
+		for seed := uint64(1); seed <= 3; seed++ {
+			g := lcg(seed*977 + uint64(n))
+			mk(func(int) int { return g() })
+		}
+	}
+	return out
+}
